@@ -57,6 +57,13 @@ Theorem C20_checksum_default_chunk :
 Proof. exact (@checksum_default_chunk). Qed.
 Print Assumptions C20_checksum_default_chunk.
 
+(* The default algorithm of the source (regenerated constant) is accepted by hashlib.new and
+   has a fixed-length hexdigest (tables of the running interpreter). *)
+Theorem C20_default_algorithm_usable :
+  str_mem default_algorithm hash_algorithms = true /\ str_mem default_algorithm hash_xof = false.
+Proof. exact default_algorithm_usable. Qed.
+Print Assumptions C20_default_algorithm_usable.
+
 (* Errors: unknown algorithm first, then the error of open(); never the fuel default. *)
 Theorem C20_checksum_errors :
   forall (W H : Type) (rt : runtime W H) (path : bytes) (n : Z) (alg : bytes) (w : W),
